@@ -454,3 +454,101 @@ Proof.
   intros lk wanted h1 s d h2 H K. unfold scan_multicast. rewrite !scan_result_items.
   apply result_of_invariant; [|assumption]. apply same_set_sym. now apply mc_items_inert.
 Qed.
+
+(* ------------------------------------------------------------ burst delivery (nothing stops at completion) *)
+
+Lemma uc_fold_burst : forall nq h c p b,
+  fold_left (uc_step_burst nq) h (mkU c p b) =
+  mkU (c + length (msgs h)) (fold_left add_record (concat (msgs h)) p)
+      (b || ((c <? nq) && (nq <=? c + length (msgs h)))).
+Proof.
+  induction h as [|[|r] t IH]; intros c p b.
+  - simpl. rewrite Nat.add_0_r. f_equal. apply eq_true_iff_eq.
+    rewrite !orb_true_iff, !andb_true_iff, !Nat.ltb_lt, !Nat.leb_le. intuition lia.
+  - simpl. apply IH.
+  - simpl msgs. simpl fold_left. unfold uc_step_burst at 1. cbn [uclosed ucount uparser].
+    rewrite IH. unfold add_message. cbn [concat length]. rewrite fold_left_app. f_equal; [lia|].
+    apply eq_true_iff_eq.
+    rewrite !orb_true_iff, !andb_true_iff, Nat.eqb_eq, !Nat.ltb_lt, !Nat.leb_le. intuition lia.
+Qed.
+
+Definition uc_effective_burst (nq : nat) (h : list dgram) : option (list (list rec)) :=
+  if nq <=? length (msgs h) then Some (msgs h) else None.
+
+(* burst: the answer is built from ALL decodable datagrams, provided there are at least nq *)
+Theorem uc_response_burst_spec : forall nq h, 1 <= nq ->
+  uc_response_burst nq h = match uc_effective_burst nq h with
+                           | Some ms => resp_of_parser (table_of (concat ms)) false
+                           | None => empty_response
+                           end.
+Proof.
+  intros nq h L. unfold uc_response_burst, uc_run_burst, ustate0, uc_effective_burst.
+  rewrite uc_fold_burst. cbn [uclosed uparser orb]. simpl Nat.add.
+  assert (E : (0 <? nq) = true) by (apply Nat.ltb_lt; lia). rewrite E. simpl andb.
+  destruct (nq <=? length (msgs h)); reflexivity.
+Qed.
+
+Definition uc_burst_same (nq : nat) (h h' : list dgram) : Prop :=
+  match uc_effective_burst nq h, uc_effective_burst nq h' with
+  | Some ms, Some ms' => same_set ms ms' /\ host_consistent ms
+  | None, None => True
+  | _, _ => False
+  end.
+
+Lemma uc_burst_items_same : forall lk T nq h h', 1 <= nq -> uc_burst_same nq h h' ->
+  same_set (items_of lk T (uc_response_burst nq h)) (items_of lk T (uc_response_burst nq h')).
+Proof.
+  intros lk T nq h h' L U. rewrite !uc_response_burst_spec by assumption. unfold uc_burst_same in U.
+  destruct (uc_effective_burst nq h) as [ms|]; destruct (uc_effective_burst nq h') as [ms'|]; try contradiction;
+    [|apply same_set_refl].
+  destruct U as [S [C A]]. intro it. rewrite !items_of_parse.
+  pose proof (concat_same_set _ _ S) as SR.
+  pose proof (real_services_same_set _ _ SR C) as SS.
+  rewrite <- (get_model_same_set _ _ SS A).
+  split; intros (sv & I & H); exists sv; (split; [now apply SS|assumption]).
+Qed.
+
+Definition uc_burst_items (lk : lookups) (wanted : list proto) (hs : list (list dgram)) : list item :=
+  all_items lk (scan_types wanted) (map (uc_response_burst (nqueries (scan_types wanted))) hs).
+
+Theorem unicast_burst_invariant : forall lk wanted ids hs hs',
+  Forall2 (uc_burst_same (nqueries (scan_types wanted))) hs hs' ->
+  items_consistent lk (uc_burst_items lk wanted hs) ->
+  snapshot_equiv (scan_unicast_burst lk wanted ids hs) (scan_unicast_burst lk wanted ids hs').
+Proof.
+  intros lk wanted ids hs hs' F K. unfold scan_unicast_burst. rewrite !scan_result_items.
+  apply result_of_invariant; [|assumption]. clear K. apply all_items_Forall2.
+  induction F as [|h h' t t' U F IH]; simpl; [constructor|].
+  constructor; [|assumption]. apply uc_burst_items_same; [apply nqueries_pos|assumption].
+Qed.
+
+(* every arrival order of one burst, whatever its size *)
+Theorem uc_burst_same_perm : forall nq h h',
+  Permutation h h' -> host_consistent (msgs h) -> uc_burst_same nq h h'.
+Proof.
+  intros nq h h' P C. pose proof (msgs_Permutation h h' P) as PM.
+  unfold uc_burst_same, uc_effective_burst. rewrite <- (Permutation_length PM).
+  destruct (nq <=? length (msgs h)); [|exact I]. split; [now apply Permutation_same_set|assumption].
+Qed.
+
+Theorem unicast_burst_perm_invariant : forall lk wanted ids hs hs',
+  Forall2 (fun h h' => Permutation h h' /\ host_consistent (msgs h)) hs hs' ->
+  items_consistent lk (uc_burst_items lk wanted hs) ->
+  snapshot_equiv (scan_unicast_burst lk wanted ids hs) (scan_unicast_burst lk wanted ids hs').
+Proof.
+  intros lk wanted ids hs hs' F K. apply unicast_burst_invariant; [|assumption].
+  clear K. induction F as [|h h' t t' (P & C) F IH]; constructor; [|assumption].
+  now apply uc_burst_same_perm.
+Qed.
+
+(* multicast without identifier filter never closes: burst delivery is the plain run *)
+Theorem mc_run_burst_noids : forall types h, mc_run_burst types [] h = mc_run types [] h.
+Proof.
+  intros types h. unfold mc_run_burst, mc_run.
+  assert (G : forall l st, mclosed st = false ->
+            fold_left (mc_step_burst types []) l st = fold_left (mc_step types []) l st).
+  { induction l as [|x t IH]; intros st C; simpl; [reflexivity|].
+    unfold mc_step_burst at 2. replace (mkM (qrs st) false) with st by (destruct st; simpl in *; now subst).
+    apply IH. now rewrite mc_step_noids. }
+  now apply G.
+Qed.
